@@ -219,6 +219,20 @@ class World:
         self.nobj += 1
         self.events["new"] += 1
 
+    def _s_newres(self, s):
+        """A further resource, possibly of another class (operands of comparisons, C16)."""
+        from .classes import CLASSES
+        ci = CLASSES[s["cls"]]
+        doc = dec(s["doc"])
+        if kind_of(doc) != ci.kind:
+            return False
+        r = new_resource(ci, self.dir, f"x{len(self.res)}.json")
+        r.write(copy.deepcopy(doc))
+        self.res.append(r)
+        self.docs.append(copy.deepcopy(doc))
+        self.may_be_absent.append(False)
+        self.root_ci.append(ci)
+
     def _s_rewrite(self, s):
         r = s.get("r", 0)
         if not (0 <= r < len(self.res)):
@@ -278,6 +292,10 @@ class World:
         if not self.usable(i) or not self._refs_ok(a, kw):
             return False
         h = self.handles[i]
+        if m not in ops.MUTATORS[h.kind] and m not in ops.READS[h.kind] and m not in ops.EXTRA_READ:
+            return False
+        if not ops.arity_ok(h.kind, m, a):
+            return False
         cont = self.model_at(h)
         n_before = len(cont)
         mut = ops.is_mutator(h.kind, m)
@@ -286,6 +304,9 @@ class World:
         model = ops.model_apply(cont, h.kind, m, a, kw, self._resolve_model, real_out=real)
         self.last = (real, model)
         self.events[("op", h.kind, m)] += 1
+        if not model.ok:
+            self.events["model_raise"] += 1
+            self.events["raise:" + str(model.family)] += 1
         if mut:
             if model.ok:
                 if before_doc != self.docs[h.res]:
